@@ -194,7 +194,13 @@ RECIPES = {
               # of exactly the missing size, whose frame is then retyped Full -> Last at rest
               dict(cmd="run", gen="big:8,batch:12,aim-batch:8,aim-block:8", policy="always_flush",
                    opts={"crash": "process", "tears": "boundaries", "cont": True, "glue": True, "max-points": "400"},
-                   thorough_factor=6)],
+                   thorough_factor=6),
+              # damage that moves the end of the log (zeroed header, zeroed / invalid type byte, checksum), a reopen,
+              # then a crash inside an append sized so that its first frame closes the block and its tail is as long as
+              # the stale continuation frame that opens the next block (finding D10 for the zeroed header)
+              dict(cmd="damage", gen="big:6,batch:8,aim-batch:8,aim-block:8", policy="always_flush",
+                   opts={"classes": "hdr,crc", "dmgcrash": True, "compound": "120"},
+                   opts_thorough={"classes": "hdr,crc", "dmgcrash": True, "compound": "600", "thorough": True}, thorough_factor=4)],
         rule="closed images of recorded runs x in-place damage aimed with the frame table (every header field of every "
              "frame, payload first/middle/last byte, CRC bytes, garbage / zero ranges, block boundaries) + random noise, "
              "1-3 operations; every recovered record must equal a record of some recorded append of the same queue, "
